@@ -97,11 +97,20 @@ impl Stats {
         for (k, v) in o.viol_by_sig {
             *self.viol_by_sig.entry(k).or_default() += v;
         }
-        for v in o.viol_examples {
-            let same = self.viol_examples.iter().filter(|x| x.sig == v.sig).count();
-            if same < 2 && self.viol_examples.len() < 40 {
-                self.viol_examples.push(v);
+        // Examples are chosen deterministically (units are handed to workers dynamically, so arrival order is
+        // not): per signature the two smallest keys, shortest first, then lexicographic.
+        if !o.viol_examples.is_empty() {
+            self.viol_examples.extend(o.viol_examples);
+            self.viol_examples.sort_by(|a, b| (a.sig.as_str(), a.key.len(), a.key.as_str()).cmp(&(b.sig.as_str(), b.key.len(), b.key.as_str())));
+            self.viol_examples.dedup_by(|b, a| a.sig == b.sig && a.key == b.key);
+            let mut kept: Vec<Viol> = Vec::with_capacity(self.viol_examples.len());
+            for v in std::mem::take(&mut self.viol_examples) {
+                let same = kept.iter().rev().take_while(|x| x.sig == v.sig).count();
+                if same < 2 && kept.len() < 40 {
+                    kept.push(v);
+                }
             }
+            self.viol_examples = kept;
         }
         for (k, v) in o.known {
             let e = self.known.entry(k).or_default();
